@@ -339,10 +339,7 @@ func (g *Gen) posOffsetVal() string {
 	case 1:
 		return g.pick("50%", "100%", "50.0%", "100.0%", "25%", "75%", "10%", "99%", "1%")
 	case 2:
-		if g.known {
-			return g.pick("10.5%", "0.5%", "33.3%", "99.9%", "12.50%") // N03
-		}
-		return g.pick("5%", "20%", "100%")
+		return g.pick("10.5%", "0.5%", "33.3%", "99.9%", "12.50%", "5%", "20%", "100%") // (N03 = K83 repaired: fractions too)
 	case 3:
 		return g.pick("-10%", "110%", "200%")
 	case 4:
@@ -356,12 +353,7 @@ func (g *Gen) posOffsetVal() string {
 func (g *Gen) posOffsetFar() string {
 	for {
 		v := g.posOffsetVal()
-		if g.known || !strings.HasSuffix(v, "%") {
-			return v
-		}
-		if rePlainInt.MatchString(strings.TrimSuffix(v, "%")) && !strings.Contains(v, ".") {
-			return v
-		}
+		return v // (N03 = K83 repaired: any percentage may follow right / bottom)
 	}
 }
 
